@@ -1558,7 +1558,7 @@ func (stack *extensionParsingStack) walkBack(rawLines []string, lineIndex int) {
 // Recursively parses through the given extension lines, building and adding extension objects as it goes.
 // Extensions may be key:value pairs, arrays, or objects.
 func buildExtensionObjects(rawLines []string, cleanLines []string, lineIndex int, extObjs *[]extensionObject, stack *extensionParsingStack) {
-	if lineIndex >= len(rawLines) {
+	if lineIndex >= len(rawLines) || lineIndex >= len(cleanLines) {
 		if stack != nil {
 			if ext, ok := (*stack)[0].(extensionObject); ok {
 				*extObjs = append(*extObjs, ext)
@@ -1574,7 +1574,7 @@ func buildExtensionObjects(rawLines []string, cleanLines []string, lineIndex int
 	}
 
 	nextIsList := false
-	if lineIndex < len(rawLines)-1 {
+	if lineIndex < len(rawLines)-1 && lineIndex < len(cleanLines)-1 {
 		next := strings.SplitAfterN(cleanLines[lineIndex+1], ":", 2)
 		nextIsList = len(next) == 1
 	}
